@@ -38,6 +38,10 @@ pub struct FCell {
     pub at: (u8, u8),
     pub expr: Expr,
     pub blanks: Vec<u8>,
+    /// 0 ordinary `set_formula` cell; 1 shared-formula CHILD (type shared, the text lives in
+    /// `text_view` as after loading a file); 2 shared-formula MASTER (type shared, `text`)
+    #[serde(default)]
+    pub shared: u8,
 }
 
 #[derive(Debug, Clone, Serialize, Deserialize)]
@@ -126,7 +130,9 @@ fn op_raw() -> BoxedStrategy<OpRaw> {
 }
 
 fn fcell() -> BoxedStrategy<FCell> {
-    (any::<u16>(), (1u8..=8, 1u8..=8), expr(), blank_plan()).prop_map(|(host, at, expr, blanks)| FCell { host, at, expr, blanks }).boxed()
+    (any::<u16>(), (1u8..=8, 1u8..=8), expr(), blank_plan(), prop_oneof![5 => Just(0u8), 4 => Just(1u8), 1 => Just(2u8)])
+        .prop_map(|(host, at, expr, blanks, shared)| FCell { host, at, expr, blanks, shared })
+        .boxed()
 }
 
 /// areas a defined name / chart series may carry (`all` adds whole rows/columns)
@@ -244,6 +250,8 @@ pub struct Resolved {
     pub sheets: Vec<String>,
     /// (host, at, expr, blanks)
     pub cells: Vec<(usize, (u32, u32), Expr, Vec<u8>)>,
+    /// per cell: 0 ordinary, 1 shared-formula child, 2 shared-formula master
+    pub shared: Vec<u8>,
     /// (holder sheet or WORKBOOK, parts)
     pub names: Vec<(usize, Vec<(usize, Area)>)>,
     pub series: Vec<(usize, Vec<(usize, Area)>)>,
@@ -378,6 +386,7 @@ pub fn resolve(c: &Case) -> Resolved {
     let n = sheets.len();
     // formula cells: distinct (host, at)
     let mut cells: Vec<(usize, (u32, u32), Expr, Vec<u8>)> = Vec::new();
+    let mut shared: Vec<u8> = Vec::new();
     for f in &c.cells {
         let host = pick_idx(f.host, n);
         let at = (f.at.0 as u32, f.at.1 as u32);
@@ -395,6 +404,8 @@ pub fn resolve(c: &Case) -> Resolved {
             });
         }
         cells.push((host, at, e, f.blanks.clone()));
+        // the lazy stratum saves the workbook: ordinary cells only there
+        shared.push(if c.lazy.is_some() { 0 } else { f.shared.min(2) });
     }
     let part = |p: &(u16, Area)| (pick_idx(p.0, n), p.1.clone());
     let mut names: Vec<(usize, Vec<(usize, Area)>)> = Vec::new();
@@ -456,7 +467,7 @@ pub fn resolve(c: &Case) -> Resolved {
         l.dedup();
         l
     });
-    Resolved { sheets, cells, names, series, edits, excluded, lazy }
+    Resolved { sheets, cells, shared, names, series, edits, excluded, lazy }
 }
 
 // ---------------------------------------------------------------------------------------
@@ -521,7 +532,22 @@ pub fn run_workbook(r: &Resolved, texts: &[String]) -> Result<Observed, PanicInf
         for (i, (host, at, _e, _b)) in r.cells.iter().enumerate() {
             let ws = book.get_sheet_mut(host).unwrap();
             let cell = ws.get_cell_mut((at.0, at.1));
-            cell.set_formula(texts[i].clone());
+            match r.shared.get(i).copied().unwrap_or(0) {
+                0 => {
+                    cell.set_formula(texts[i].clone());
+                }
+                kind => {
+                    let mut cf = umya_spreadsheet::structs::CellFormula::default();
+                    cf.set_formula_type(umya_spreadsheet::structs::CellFormulaValues::Shared);
+                    cf.set_shared_index(i as u32);
+                    if kind == 1 {
+                        cf.set_text_view(texts[i].clone());
+                    } else {
+                        cf.set_text(texts[i].clone());
+                    }
+                    cell.get_cell_value_mut().set_formula_obj(cf);
+                }
+            }
             cell.set_formula_result_default(format!("tag-{}", i));
         }
         for (i, (holder, parts)) in r.names.iter().enumerate() {
@@ -630,7 +656,7 @@ fn cell_expected(r: &Resolved, host: usize, e: &Expr) -> Vec<Tok> {
 }
 
 /// one formula cell alone in the same workbook under the same edits (used by the classifier)
-fn attempt_cell(r: &Resolved, host: usize, at: (u32, u32), e: &Expr, blanks: &[u8], lead: u8, trail: u8) -> Outcome {
+fn attempt_cell(r: &Resolved, sh: u8, host: usize, at: (u32, u32), e: &Expr, blanks: &[u8], lead: u8, trail: u8) -> Outcome {
     let (text, input) = match prepare(e, blanks, lead, trail) {
         Ok(x) => x,
         Err(o) => return o,
@@ -641,7 +667,7 @@ fn attempt_cell(r: &Resolved, host: usize, at: (u32, u32), e: &Expr, blanks: &[u
     let own = r.edits_on(host);
     let all: Vec<Edit> = r.edits.iter().map(|(_, e)| *e).collect();
     let at = (0..200u32).map(|k| (at.0 + k * 7, at.1 + k * 11)).find(|c| survives(*c, &own) && survives(*c, &all)).unwrap_or(at);
-    let single = Resolved { sheets: r.sheets.clone(), cells: vec![(host, at, e.clone(), blanks.to_vec())], names: vec![], series: vec![], edits: r.edits.clone(), excluded: vec![], lazy: None };
+    let single = Resolved { sheets: r.sheets.clone(), cells: vec![(host, at, e.clone(), blanks.to_vec())], shared: vec![sh], names: vec![], series: vec![], edits: r.edits.clone(), excluded: vec![], lazy: None };
     let lib = run_workbook(&single, &[text.clone()]).map(|o| match &o.cells[0] {
         Some(s) => Ok(s.clone()),
         None => Err("formula cell deleted by the history".to_string()),
@@ -651,14 +677,14 @@ fn attempt_cell(r: &Resolved, host: usize, at: (u32, u32), e: &Expr, blanks: &[u
 
 /// single reference for the classifier; `strip`: the equivalent unqualified reference, i.e.
 /// hosted on the sheet the qualifier designates (not possible for external references)
-fn ref_runner(r: &Resolved, host: usize, at: (u32, u32), rn: &RefNode, strip: bool, a: &Area, lower: bool) -> Outcome {
+fn ref_runner(r: &Resolved, sh: u8, host: usize, at: (u32, u32), rn: &RefNode, strip: bool, a: &Area, lower: bool) -> Outcome {
     if strip {
         match target_of(rn, host, &r.sheets) {
-            Some(t) if rn.qual.is_some() => attempt_cell(r, t, at, &Expr::Ref(RefNode { qual: None, area: a.clone(), lower }), &[], 0, 0),
+            Some(t) if rn.qual.is_some() => attempt_cell(r, sh, t, at, &Expr::Ref(RefNode { qual: None, area: a.clone(), lower }), &[], 0, 0),
             _ => Outcome::Pass,
         }
     } else {
-        attempt_cell(r, host, at, &Expr::Ref(RefNode { qual: rn.qual.clone(), area: a.clone(), lower }), &[], 0, 0)
+        attempt_cell(r, sh, host, at, &Expr::Ref(RefNode { qual: rn.qual.clone(), area: a.clone(), lower }), &[], 0, 0)
     }
 }
 
@@ -841,7 +867,7 @@ fn panic_part(r: &Resolved, kind: &str, holder: Option<usize>, parts: &[(usize, 
 
 /// a defined name alone (classifier)
 fn attempt_name(r: &Resolved, holder: usize, parts: &[(usize, Area)]) -> Option<(String, String)> {
-    let single = Resolved { sheets: r.sheets.clone(), cells: vec![], names: vec![(holder, parts.to_vec())], series: vec![], edits: r.edits.clone(), excluded: vec![], lazy: None };
+    let single = Resolved { sheets: r.sheets.clone(), cells: vec![], shared: vec![], names: vec![(holder, parts.to_vec())], series: vec![], edits: r.edits.clone(), excluded: vec![], lazy: None };
     match run_workbook(&single, &[]) {
         Err(p) => {
             let i = panic_part(r, "defined-name", Some(holder), parts);
@@ -872,7 +898,7 @@ fn judge_name(r: &Resolved, holder: usize, parts: &[(usize, Area)], observed: &O
 }
 
 fn attempt_series(r: &Resolved, holder: usize, parts: &[(usize, Area)]) -> Option<(String, String)> {
-    let single = Resolved { sheets: r.sheets.clone(), cells: vec![], names: vec![], series: vec![(holder, parts.to_vec())], edits: r.edits.clone(), excluded: vec![], lazy: None };
+    let single = Resolved { sheets: r.sheets.clone(), cells: vec![], shared: vec![], names: vec![], series: vec![(holder, parts.to_vec())], edits: r.edits.clone(), excluded: vec![], lazy: None };
     match run_workbook(&single, &[]) {
         Err(p) => {
             let i = panic_part(r, "chart-series", None, parts);
@@ -942,7 +968,24 @@ fn label(c: &Case, r: &Resolved, obs: &mut Obs) {
         classes.insert("ops:several-sheets".into());
     }
     let mut nontrivial = false;
-    for (host, _at, e, _b) in &r.cells {
+    for (ci, (host, _at, e, _b)) in r.cells.iter().enumerate() {
+        let sh = r.shared.get(ci).copied().unwrap_or(0);
+        if sh == 1 {
+            classes.insert("cell:shared-child".into());
+            let other_edit = edited.iter().any(|s| s != host);
+            for rn in e.refs() {
+                if rn.qual.is_some() && target_of(rn, *host, &r.sheets) == Some(*host) && other_edit {
+                    classes.insert("shared-child:self-qualified-ref+edit-on-other-sheet".into());
+                }
+                if let Some(t) = target_of(rn, *host, &r.sheets) {
+                    if t != *host && edit_area_history(&rn.area, &r.edits_on(t)) != vec![Some(rn.area.clone())] {
+                        classes.insert("shared-child:other-sheet-ref-moved".into());
+                    }
+                }
+            }
+        } else if sh == 2 {
+            classes.insert("cell:shared-master".into());
+        }
         let mut moved = false;
         let mut fixed_tok = false;
         for t in tokens(e, &identity_map) {
@@ -1074,6 +1117,7 @@ fn check_inner(r: &Resolved, obs: &mut Obs) -> Verdict {
     }
     if let Ok(o) = &whole {
         for (i, (host, at, e, b)) in r.cells.iter().enumerate() {
+            let sh = r.shared.get(i).copied().unwrap_or(0);
             if r.lazy.is_some() {
                 // the reloaded file must show the generated formula, else the save/load
                 // path (C01/C03) changed it and this cell is not judged here
@@ -1089,11 +1133,15 @@ fn check_inner(r: &Resolved, obs: &mut Obs) -> Verdict {
             };
             let expected = cell_expected(&r, *host, e);
             if let Outcome::Fail { mode, tok_class, detail } = judge_output(&texts[i], &inputs[i], &expected, Ok(Ok(out.clone()))) {
-                let run = |x: &Expr, bl: &[u8], l: u8, t: u8| attempt_cell(&r, *host, *at, x, bl, l, t);
-                let run_ref = |rn: &RefNode, strip: bool, a: &Area, lower: bool| ref_runner(&r, *host, *at, rn, strip, a, lower);
+                let run = |x: &Expr, bl: &[u8], l: u8, t: u8| attempt_cell(&r, sh, *host, *at, x, bl, l, t);
+                let run_ref = |rn: &RefNode, strip: bool, a: &Area, lower: bool| ref_runner(&r, sh, *host, *at, rn, strip, a, lower);
                 // classify on the isolated cell when it fails alone as well, else by token class
-                let alone = attempt_cell(&r, *host, *at, e, b, 0, 0);
+                let alone = attempt_cell(&r, sh, *host, *at, e, b, 0, 0);
                 let (key, detail) = match alone {
+                    // a failure that an ordinary cell with the same text does not show
+                    Outcome::Fail { mode, detail, .. } if sh != 0 && !matches!(attempt_cell(&r, 0, *host, *at, e, b, 0, 0), Outcome::Fail { .. }) => {
+                        (format!("shared-formula-{}/{}", if sh == 1 { "child" } else { "master" }, mode), detail)
+                    }
                     Outcome::Fail { mode, tok_class, detail } => classify(e, b, 0, 0, (mode, tok_class, detail), &run, &run_ref),
                     _ => (format!("{}-with-other-objects/{}", tok_class, mode), detail),
                 };
@@ -1130,10 +1178,11 @@ fn check_inner(r: &Resolved, obs: &mut Obs) -> Verdict {
     }
     if let Err(p) = &whole {
         // attribute the panic to the first object that panics (or fails) alone
-        for (host, at, e, b) in r.cells.iter() {
-            if let Outcome::Fail { mode, tok_class, detail } = attempt_cell(&r, *host, *at, e, b, 0, 0) {
-                let run = |x: &Expr, bl: &[u8], l: u8, t: u8| attempt_cell(&r, *host, *at, x, bl, l, t);
-                let run_ref = |rn: &RefNode, strip: bool, a: &Area, lower: bool| ref_runner(&r, *host, *at, rn, strip, a, lower);
+        for (i, (host, at, e, b)) in r.cells.iter().enumerate() {
+            let sh = r.shared.get(i).copied().unwrap_or(0);
+            if let Outcome::Fail { mode, tok_class, detail } = attempt_cell(&r, sh, *host, *at, e, b, 0, 0) {
+                let run = |x: &Expr, bl: &[u8], l: u8, t: u8| attempt_cell(&r, sh, *host, *at, x, bl, l, t);
+                let run_ref = |rn: &RefNode, strip: bool, a: &Area, lower: bool| ref_runner(&r, sh, *host, *at, rn, strip, a, lower);
                 let (key, detail) = classify(e, b, 0, 0, (mode, tok_class, detail), &run, &run_ref);
                 return Verdict::fail(key, detail);
             }
